@@ -9,6 +9,7 @@ import (
 	"os"
 	"strconv"
 	"strings"
+	"sync/atomic"
 	"syscall"
 	"time"
 
@@ -120,6 +121,54 @@ func fileObs(f *os.File, read bool, write string) map[string]any {
 	return o
 }
 
+// allStopped: every thread of pid is in state T (stopped)
+func allStopped(pid int) bool {
+	ts, err := os.ReadDir("/proc/" + strconv.Itoa(pid) + "/task")
+	if err != nil || len(ts) == 0 {
+		return false
+	}
+	for _, t := range ts {
+		b, err := os.ReadFile("/proc/" + strconv.Itoa(pid) + "/task/" + t.Name() + "/stat")
+		if err != nil {
+			continue // the thread is gone
+		}
+		f := strings.Fields(string(b[strings.LastIndexByte(string(b), ')')+1:]))
+		if len(f) == 0 || f[0] != "T" {
+			return false
+		}
+	}
+	return true
+}
+
+// execcross reports every finished round here; its guard is about progress, not about speed (on a loaded machine one round
+// takes a multiple of what it takes on an idle one, and the op schedules pauses of 6 * the measured duration of a run itself)
+var crossProgress, crossAllow atomic.Int64
+
+// hangGuard fires when a call counts as hanging: 12 s (+ 200 ms per round) after the op began; for execcross, when no round has
+// finished for 12 s + 20 * the measured duration of one run (no progress: a call of that round never returned)
+func hangGuard(kind string, op map[string]any, finished <-chan struct{}) <-chan time.Time {
+	if kind != "execcross" {
+		return time.After(12*time.Second + time.Duration(hx.Int(op["rounds"]))*200*time.Millisecond)
+	}
+	ch := make(chan time.Time, 1)
+	crossProgress.Store(time.Now().UnixNano())
+	crossAllow.Store(0)
+	go func() {
+		for {
+			select {
+			case <-finished:
+				return
+			case <-time.After(250 * time.Millisecond):
+			}
+			if time.Since(time.Unix(0, crossProgress.Load())) > 12*time.Second+time.Duration(crossAllow.Load()) {
+				ch <- time.Now()
+				return
+			}
+		}
+	}()
+	return ch
+}
+
 func main() {
 	hx.Init()
 	scratch := os.Getenv("VERIF_SCRATCH")
@@ -183,8 +232,11 @@ func main() {
 						t0 := time.Now()
 						one(0)
 						base += time.Since(t0)
+						crossProgress.Store(time.Now().UnixNano())
 					}
 					base /= 5
+					// the longest pause this op schedules inside one round is 6*base (lateDone); the guard allows for it
+					crossAllow.Store(int64(20 * base))
 					counts := map[string]int{}
 					fail := ""
 					done := 0
@@ -198,6 +250,7 @@ func main() {
 							fail = "ping after a run whose cancellation arrived together with its result: " + err.Error()
 						}
 						done++
+						crossProgress.Store(time.Now().UnixNano())
 					}
 					for rd := 0; rd < rounds && fail == ""; rd++ {
 						d := base + time.Duration(rd%61-30)*(base/60)
@@ -207,6 +260,7 @@ func main() {
 							fail = "ping after a run whose cancellation crossed its end: " + err.Error()
 						}
 						done++
+						crossProgress.Store(time.Now().UnixNano())
 					}
 					null.Close()
 					o["rounds_done"], o["fail"], o["statuses"], o["base_us"] = done, fail, counts, base.Microseconds()
@@ -219,7 +273,13 @@ func main() {
 					go func(d time.Duration) { time.Sleep(d); syscall.Kill(ip, syscall.SIGCONT) }(time.Duration(hx.Int(op["ms"])) * time.Millisecond)
 				case "stopinit":
 					// the container stalls (stopped) ...
-					syscall.Kill(container.InitPidVerif(env), syscall.SIGSTOP)
+					ip := container.InitPidVerif(env)
+					syscall.Kill(ip, syscall.SIGSTOP)
+					// the stop takes effect thread by thread: wait (2 s at most) until every thread of the init shows state T, so that
+					// none of them answers the next call
+					for k := 0; k < 400 && !allStopped(ip); k++ {
+						time.Sleep(5 * time.Millisecond)
+					}
 				case "continit":
 					// ... and goes on later
 					syscall.Kill(container.InitPidVerif(env), syscall.SIGCONT)
@@ -375,7 +435,7 @@ func main() {
 			}()
 			select {
 			case <-finished:
-			case <-time.After(12*time.Second + time.Duration(hx.Int(op["rounds"]))*200*time.Millisecond):
+			case <-hangGuard(kind, op, finished):
 				_ = 0
 				// the call hangs: report it and abandon this environment (and the rest of the history)
 				obs = append(obs, map[string]any{"op": kind, "hang": true, "ms": time.Since(t0).Milliseconds()})
